@@ -573,6 +573,11 @@ def _line_class(ta, x):
     return 'serializer-other-lines'
 
 
+def _kw_types():
+    from sqlparse import tokens as T
+    return T.Keyword
+
+
 def diff_classes(a, b):
     """a, b: sig of the input / of the output.  Returns a list of (class, detail): tokens that
     differ only by line ends / trailing blanks inside them are reported and skipped; the first
@@ -591,6 +596,12 @@ def diff_classes(a, b):
         if x == y:
             if ta != tb:
                 add('retyped:' + _feature(tb, y), '%r: %s -> %s' % (x, ta, tb))
+            i += 1
+            continue
+        if ta == tb and ta in _kw_types() and x.split() == y.split():
+            # a multi-word keyword token (ORDER BY, END IF ...) whose INNER white space was respelled (the serializer turns a
+            # bare CR into LF): the same keyword token; the property fixes the bytes of literals, quoted names and comments,
+            # white space is what layout formatting is allowed to change
             i += 1
             continue
         if _norm_lines(x) == _norm_lines(y) or (x.rstrip() == y.rstrip() and i == n - 1):
@@ -1123,9 +1134,31 @@ def oracle(text, opts=None):
     return oracle_case(text, opts)
 
 
+def _open_known():
+    return [k for k in vlib.load_known_findings() if k.get('property') == 'C06' and k.get('status') == 'open']
+
+
+SEARCH_OPTS = [{'reindent': True}, {'reindent_aligned': True}, {'strip_whitespace': True},
+               {'use_space_around_operators': True}, {'reindent_aligned': True, 'use_space_around_operators': True}]
+
+
 def search(ctx, hints):
     fails = []
     tried = 0
+    # the disagreeing inputs of the correspondence and the by-construction shapes, under each layout option
+    for d in hints.get('disagreements', []):
+        if 'input' not in d or fails:
+            continue
+        s = ''.join(map(chr, d['input']))
+        for o in ([d['options']] if isinstance(d.get('options'), dict) else SEARCH_OPTS):
+            tried += 1
+            try:
+                f = oracle_case(s, o)
+            except Exception:  # noqa
+                f = None
+            if f and classify(f, _open_known()) is None:
+                fails.append(f)
+                break
     t0 = time.time()
     while time.time() - t0 < ctx.n(60, 600) and not fails:
         s, kind, opts = gens_sites.case(ctx.rng)
